@@ -24,6 +24,10 @@ extracted `Column.Filter` → `filterBuiltIn` / `filterCustom1` / `filterCustom2
                               leaves: the regenerated `Filter` on the regenerated leaves returns an error exactly when
                               the spec's clause is not well formed and otherwise exactly `keptRows`.
 * `gen_filter_inv_end_to_end_partial` — the same for one `Filter{Inverse: true}`: the rows where the predicate is false.
+* `gen_kernel_loop`          — the RAW per-entry loop of a regenerated `.upd u` over any index inside the frame (`rawLoop`) is
+                              `F.runKernel .guarded` of the predicate `kernelOf` reads off `u`, whatever the completion `out`
+                              (`gen_kernel_loop_out`); `gen_kernel_loop_agrees`: for every call that `Agrees` with a predicate.
+* `c02_9_swapped_promotion_keeps_wrong_rows` — the concrete witness of seeded defect C02-9 (F = [1.5], I = [2], `F < I`).
 * two findings (spec and code disagree; both confirmed on the real code), excluded from the scope:
   `Not(Filter{"not in"})` and a one-argument custom predicate with a `ColumnName` argument.
 -/
@@ -365,6 +369,97 @@ theorem kernelOf_some {n : Nat} {out : Bool} {r : DRes} {c' ac' : LCol} {p : Nat
     cases p i <;> simp
   · intro i hi
     simp only [hi, if_false]
+
+/-! ### the raw loop of a call is `F.runKernel` of `kernelOf` -/
+
+/-- the RAW loop of a column's `Filter` over an index: `for i, x := range index { bIndex[i] = <update of entry i> }` with the
+per-entry update `u` of a regenerated `.upd u` (cell of the receiver, cell of the operand column, the entry before); `none`:
+some update has no meaning -/
+def rawLoop (u : Cell → Cell → Bool → Option Bool) (c' ac' : LCol) : List Nat → List Bool → Option (List Bool)
+  | i :: ix, b :: bs =>
+    match u c'.cells[i]! ac'.cells[i]! b, rawLoop u c' ac' ix bs with
+    | some q, some r => some (q :: r)
+    | _, _ => none
+  | _, _ => some []
+
+/-- **`gen_kernel_loop`**: the raw per-entry loop of a regenerated `.upd u` over ANY index whose rows are inside the frame and
+any mask is `F.runKernel .guarded` of the predicate `kernelOf` reads off `u` — provided `u` accumulates on these rows
+(`u x y b = b || u x y false`, what `Agrees` gives for every kernel in scope: `gen_kernel_loop_agrees`). The completion
+`out` of `kernelOf` for positions outside the frame is never looked at: the statement holds for both values. -/
+theorem gen_kernel_loop (u : Cell → Cell → Bool → Option Bool) (c' ac' : LCol) (n : Nat) (out : Bool) :
+    ∃ p, kernelOf n out (.upd u, c', ac') = some (.guarded, p) ∧
+      ∀ (ix : List Nat) (mask : List Bool), (∀ i ∈ ix, i < n) →
+        (∀ i ∈ ix, ∀ b, ∃ q, u c'.cells[i]! ac'.cells[i]! false = some q ∧ u c'.cells[i]! ac'.cells[i]! b = some (b || q)) →
+        rawLoop u c' ac' ix mask = some (F.runKernel .guarded p ix mask) := by
+  refine ⟨_, rfl, ?_⟩
+  intro ix
+  induction ix with
+  | nil => intro mask _ _; cases mask <;> rfl
+  | cons i ix ih =>
+    intro mask hin hacc
+    cases mask with
+    | nil => rfl
+    | cons b bs =>
+      have hi : i < n := hin i (List.mem_cons_self ..)
+      obtain ⟨q, hq0, hqb⟩ := hacc i (List.mem_cons_self ..) b
+      have ih' := ih bs (fun j hj => hin j (List.mem_cons_of_mem _ hj)) (fun j hj => hacc j (List.mem_cons_of_mem _ hj))
+      simp only [rawLoop, hqb, ih', F.runKernel, hi, if_true, hq0]
+      cases b <;> cases q <;> rfl
+
+/-- … and `out` plays no role on an index inside the frame -/
+theorem gen_kernel_loop_out (u : Cell → Cell → Bool → Option Bool) (c' ac' : LCol) (n : Nat) (ix : List Nat) (mask : List Bool)
+    (hin : ∀ i ∈ ix, i < n) (p q : Nat → Bool)
+    (hp : kernelOf n false (.upd u, c', ac') = some (.guarded, p)) (hq : kernelOf n true (.upd u, c', ac') = some (.guarded, q)) :
+    F.runKernel .guarded p ix mask = F.runKernel .guarded q ix mask := by
+  simp only [kernelOf, Option.some.injEq, Prod.mk.injEq, true_and] at hp hq
+  subst hp; subst hq
+  induction ix generalizing mask with
+  | nil => cases mask <;> rfl
+  | cons i ix ih =>
+    cases mask with
+    | nil => rfl
+    | cons b bs =>
+      have hi : i < n := hin i (List.mem_cons_self ..)
+      simp only [F.runKernel, hi, if_true]
+      rw [ih bs (fun j hj => hin j (List.mem_cons_of_mem _ hj))]
+
+/-- the hypothesis of `gen_kernel_loop` for a call that `Agrees` with a predicate (every leaf in scope, `genRes_agrees`) on
+rows whose cells are well formed -/
+theorem gen_kernel_loop_agrees {r : DRes} {c' ac' : LCol} {p : Nat → Bool} (h : Agrees r c' ac' (some p)) (n : Nat) (out : Bool)
+    (hv : ∀ i, i < n → cellOk c'.ty c'.vals c'.cells[i]! = true ∧ cellOk ac'.ty ac'.vals ac'.cells[i]! = true) :
+    ∃ u q, r = .upd u ∧ kernelOf n out (r, c', ac') = some (.guarded, q) ∧
+      ∀ (ix : List Nat) (mask : List Bool), (∀ i ∈ ix, i < n) →
+        rawLoop u c' ac' ix mask = some (F.runKernel .guarded q ix mask) ∧
+        F.runKernel .guarded q ix mask = F.runKernel .guarded p ix mask := by
+  obtain ⟨u, rfl, hu⟩ := agrees_some h
+  obtain ⟨q, hq, hloop⟩ := gen_kernel_loop u c' ac' n out
+  obtain ⟨q', hq', hin', _⟩ := kernelOf_some (n := n) (out := out) h hv
+  rw [hq] at hq'
+  simp only [Option.some.injEq, Prod.mk.injEq, true_and] at hq'
+  subst hq'
+  refine ⟨u, q, rfl, hq, fun ix mask hin => ⟨?_, ?_⟩⟩
+  · refine hloop ix mask hin (fun i hi b => ⟨p i, ?_, ?_⟩)
+    · have := hu i false (hv i (hin i hi)).1 (hv i (hin i hi)).2
+      simpa using this
+    · exact hu i b (hv i (hin i hi)).1 (hv i (hin i hi)).2
+  · induction ix generalizing mask with
+    | nil => cases mask <;> rfl
+    | cons i ix ih =>
+      cases mask with
+      | nil => rfl
+      | cons b bs =>
+        simp only [F.runKernel]
+        rw [hin' i (hin i (List.mem_cons_self ..)), ih bs (fun j hj => hin j (List.mem_cons_of_mem _ hj))]
+
+/-- the hypotheses of `gen_kernel_loop` on a concrete update ("the entry becomes true where the two cells are equal") over the
+permuted index [1, 0] of a two-row column, and the loop it describes, run by the kernel -/
+example : let u : Cell → Cell → Bool → Option Bool := fun x y b => some (b || x == y)
+    let c : LCol := { name := [97], ty := .int, cells := #[.int 1, .int 2] }
+    let d : LCol := { name := [98], ty := .int, cells := #[.int 1, .int 3] }
+    (∀ i ∈ [1, 0], i < 2) ∧
+    (∀ i ∈ [1, 0], ∀ b, ∃ q, u c.cells[i]! d.cells[i]! false = some q ∧ u c.cells[i]! d.cells[i]! b = some (b || q)) ∧
+    rawLoop u c d [1, 0] [false, false] = some [false, true] := by
+  refine ⟨by decide, fun i _ b => ⟨_, rfl, by simp⟩, by decide⟩
 
 /-- **One call of `Column.Filter` as `QFrame.filter` makes it, end to end**: it fails exactly when `leafPred` rejects the
 leaf, otherwise it is (on the rows of the frame) the guarded accumulate of `leafPred`'s predicate. -/
@@ -907,15 +1002,97 @@ theorem custom1_with_column_arg (f2i : UInt64 → Int) (i2f : Int → UInt64) :
 def promSwapped (c ac : LCol) : LCol × LCol :=
   if c.ty == .float && ac.ty == .int then (promote ac, c) else promGen c ac
 
-/-- NOT proved here (left open): the concrete violation. On F = [1.5], I = [2], `F < I`: with `promSwapped` the regenerated
-call `genRes promSwapped` runs the float kernel `<` on (2.0, 1.5) — row 0 is not selected — where `leafPred` (and
-`genRes promGen`) compute 1.5 < 2.0. Lean's kernel cannot evaluate `Float.ofInt`, so such a witness has to be stated
-relative to `intToF64Bits 2 = 0x4000000000000000`. What IS proved: today's rules are not the swapped preamble's
-(`prepGen_eq`: `prepWith promGen = prep`, operand order included), and `gen_promote_rules` fails on any change of the rules. -/
+/-- today's rules are not the swapped preamble's (`prepGen_eq`: `prepWith promGen = prep`, operand order included;
+`gen_promote_rules` fails on any change of the rules) -/
 example : promSwapped { name := [70], ty := .float, cells := #[] } { name := [73], ty := .int, cells := #[] } ≠
     promGen { name := [70], ty := .float, cells := #[] } { name := [73], ty := .int, cells := #[] } := by
   rw [promGen_eq]
   simp [promSwapped, promote]
+
+/-! The concrete violation. Lean's kernel cannot evaluate `Float.ofInt`, so the witness is stated relative to
+`intToF64Bits 2 = 0x4000000000000000` (`float64(2)` has the bits of 2.0; `#eval (Float.ofInt 2).toBits` prints
+4611686018427387904 = 0x4000000000000000). -/
+
+/-- F = [1.5] (float), I = [2] (int); the leaf `F < I` -/
+def colF : LCol := { name := [70], ty := .float, cells := #[.float 0x3FF8000000000000] }
+def colI : LCol := { name := [73], ty := .int, cells := #[.int 2] }
+/-- `I` promoted, given `float64(2)` = 2.0 -/
+def colI2 : LCol := { name := [73], ty := .float, cells := #[.float 0x4000000000000000] }
+def fFI : LFrame := { cols := [colF, colI], n := 1 }
+def lFI : Leaf := ⟨false, [70], .builtin "<", .col [73]⟩
+
+theorem promote_colI (h2 : intToF64Bits 2 = 0x4000000000000000) : promote colI = colI2 := by
+  simp [promote, colI, colI2, h2]
+
+theorem find_F : fFI.find? [70] = some colF := by simp [fFI, LFrame.find?, colF, colI]
+theorem find_I : fFI.find? [73] = some colI := by simp [fFI, LFrame.find?, colF, colI]
+
+theorem call_today (lo : LikeOracle) (f2i : UInt64 → Int) (i2f : Int → UInt64) (h2 : intToF64Bits 2 = 0x4000000000000000) :
+    genRes promGen lo f2i i2f fFI lFI (.builtin "<") =
+      ((today lo f2i i2f {} colF (.str "<") (.col .float [] 1)).runFilter, colF, colI2) := by
+  simp only [genRes, lFI, find_F, find_I, prepWith, promGen_eq, promote_colI h2, paramsOf, dcmpOf]
+  rfl
+
+theorem call_swapped (lo : LikeOracle) (f2i : UInt64 → Int) (i2f : Int → UInt64) (h2 : intToF64Bits 2 = 0x4000000000000000) :
+    genRes promSwapped lo f2i i2f fFI lFI (.builtin "<") =
+      ((today lo f2i i2f {} colI2 (.str "<") (.col .float [] 1)).runFilter, colI2, colF) := by
+  simp only [genRes, lFI, find_F, find_I, prepWith, promSwapped, promote_colI h2, paramsOf, dcmpOf]
+  rfl
+
+theorem colI2_eq : colI2.cells = #[.float 0x4000000000000000] ∧ colF.cells = #[.float 0x3FF8000000000000] := ⟨rfl, rfl⟩
+
+/-- `Column.Filter("<")` of today's fcolumn on a float receiver `c` against a float column `ac` of one row: the guarded
+accumulate of `c[0] < ac[0]` -/
+theorem float_lt_call (lo : LikeOracle) (f2i : UInt64 → Int) (i2f : Int → UInt64) (c ac : LCol) (hc : c.ty = .float) (ha : ac.ty = .float)
+    (hv : ac.vals = []) (hn1 : c.cells.size = 1) (hn2 : ac.cells.size = 1)
+    (hok : cellOk c.ty c.vals c.cells[0]! = true ∧ cellOk ac.ty ac.vals ac.cells[0]! = true) (out : Bool) :
+    ∃ q, kernelOf 1 out ((today lo f2i i2f {} c (.str "<") (.col .float [] 1)).runFilter, c, ac) = some (.guarded, q) ∧
+      q 0 = cmp6 c "<" c.cells[0]! ac.cells[0]! := by
+  have hdef : c.ty ∈ tys := by rw [hc]; decide
+  have h := leaf_col_core lo f2i i2f {} c ac "<" hdef (by rw [hn1, hn2])
+  rw [ha, hv, hn2] at h
+  rw [← run_dispatchOf _ hdef, ← gen_filter_builtin lo f2i i2f {} c "<" _ hdef] at h
+  have hp : (if (c.ty != CType.float) = true then none
+      else if (c.ty == CType.enum && c.vals != []) = true then none
+      else if (if (c.ty == CType.bool) = true then "<" == "=" || "<" == "!=" else isOrd6 "<") = true then
+        some fun (r : Nat) => cmp6 c "<" c.cells[r]! ac.cells[r]! else none) = some (fun (r : Nat) => cmp6 c "<" c.cells[r]! ac.cells[r]!) := by
+    rw [hc]; simp [isOrd6]
+  rw [hp] at h
+  obtain ⟨q, hq, hin, _⟩ := kernelOf_some (n := 1) (out := out) h (fun i hi => by
+    have : i = 0 := by omega
+    subst this; exact hok)
+  exact ⟨q, hq, hin 0 (by omega)⟩
+
+/-- **Seeded defect C02-9, the concrete violation** (relative to `float64(2)` having the bits of 2.0, which Lean's kernel
+cannot compute from `Float.ofInt`): on the frame F = [1.5] (float), I = [2] (int) and the leaf `F < I`
+* the spec keeps row 0 (1.5 < 2.0);
+* today's regenerated call (`genLeafCalls promGen`: the receiver is F, the operand the promoted I) is the guarded kernel of a
+  predicate that is TRUE at row 0;
+* with the swapped preamble (`promSwapped`: the promoted argument comes back as the receiver, the column as the operand) the
+  regenerated call runs the float kernel `<` on (2.0, 1.5): its predicate is FALSE at row 0 — the row the spec keeps is dropped. -/
+theorem c02_9_swapped_promotion_keeps_wrong_rows (lo : LikeOracle) (f2i : UInt64 → Int) (i2f : Int → UInt64)
+    (h2 : intToF64Bits 2 = 0x4000000000000000) :
+    (∃ p, leafPred lo fFI lFI = some p ∧ p 0 = true) ∧
+    (∃ q, (genLeafCalls promGen lo f2i i2f fFI lFI).direct = some (.guarded, q) ∧ q 0 = true) ∧
+    (∃ q, (genLeafCalls promSwapped lo f2i i2f fFI lFI).direct = some (.guarded, q) ∧ q 0 = false) := by
+  refine ⟨?_, ?_, ?_⟩
+  · refine ⟨fun r => cmp6 colF "<" colF.cells[r]! colI2.cells[r]!, ?_, by decide⟩
+    unfold leafPred
+    simp only [lFI, find_F, find_I]
+    simp [colF, colI, promote, h2, isOrd6, colI2]
+  · obtain ⟨q, hq, h0⟩ := float_lt_call lo f2i i2f colF colI2 rfl rfl rfl rfl rfl (by decide) false
+    refine ⟨q, ?_, by rw [h0]; decide⟩
+    show kernelOf fFI.n false (genRes promGen lo f2i i2f fFI lFI lFI.cmp) = _
+    rw [show lFI.cmp = .builtin "<" from rfl, call_today lo f2i i2f h2]
+    exact hq
+  · obtain ⟨q, hq, h0⟩ := float_lt_call lo f2i i2f colI2 colF rfl rfl rfl rfl rfl (by decide) false
+    refine ⟨q, ?_, by rw [h0]; decide⟩
+    show kernelOf fFI.n false (genRes promSwapped lo f2i i2f fFI lFI lFI.cmp) = _
+    rw [show lFI.cmp = .builtin "<" from rfl, call_swapped lo f2i i2f h2]
+    exact hq
+
+/-- the remaining hypotheses of the witness are met by the frame: one row, float cells -/
+example : fFI.n = 1 ∧ cellOk colF.ty colF.vals colF.cells[0]! = true ∧ cellOk colI2.ty colI2.vals colI2.cells[0]! = true := by decide
 
 /-! ### Seeded defect C02-10: `Null()` skipped inside `Or` -/
 
@@ -957,5 +1134,9 @@ end Witnesses
 #print axioms gen_filter_end_to_end_genO_partial
 #print axioms not_in_is_rescued
 #print axioms custom1_with_column_arg
+#print axioms gen_kernel_loop
+#print axioms gen_kernel_loop_out
+#print axioms gen_kernel_loop_agrees
+#print axioms c02_9_swapped_promotion_keeps_wrong_rows
 
 end QF.Props.C02EndToEnd
